@@ -217,6 +217,14 @@ def uncontended(ctx, drv, rng):
     frac_cpu = rng.random() < 0.25
     if frac_cpu:
         algo, multi = "naive", True
+    # another quarter: a pool of 4 CPUs under naive and all five rational laws side by side, on segments that share their numbers (same CPU seconds,
+    # same read size) within a run and from run to run: the ticks a segment needs depend on its law too (4 CPUs: const /1, linear3 /3, linear7 /4,
+    # squared /16, exp /16; bases are multiples of 48 / tps, so every quotient is exact)
+    mixed = (not frac_cpu) and rng.random() < 1 / 3
+    if mixed:
+        algo, multi = "naive", True
+        ctx.sit("uncontended_runs_same_numbers_different_laws")
+    DIV = {"const": 1, "linear3": 3, "linear7": 4, "squared": 16, "exp": 16}
     nops = rng.randint(1, 4)
     p = Pipeline("u", rng.choice(list(Priority)))
     ops, need = [], 0
@@ -226,7 +234,13 @@ def uncontended(ctx, drv, rng):
         for _ in range(rng.choice([1, 1, 2, 3])):          # several segments per operator, some of which take no tick at all
             k = rng.randint(0, 4) if rng.random() < 0.7 else 0
             io = rng.randint(0, 3) if rng.random() < 0.6 else 0
-            if frac_cpu:
+            if mixed:
+                law = rng.choice(sorted(DIV))
+                j = rng.randint(0, 2)
+                io = rng.randint(0, 1)
+                op.add_segment(Segment(baseline_cpu_seconds=48 * j / tps, cpu_scaling=law, memory_gb=0.5, storage_read_gb=io * 20 / tps))
+                k = 48 * j // DIV[law]
+            elif frac_cpu:
                 op.add_segment(Segment(baseline_cpu_seconds=2.5 * k / tps, cpu_scaling="linear3", memory_gb=0.5, storage_read_gb=io * 20 / tps))
             else:
                 op.add_segment(Segment(baseline_cpu_seconds=k / tps, cpu_scaling="const", memory_gb=0.5, storage_read_gb=io * 20 / tps))
@@ -242,7 +256,7 @@ def uncontended(ctx, drv, rng):
             self.t += 1
             return [p] if self.t - 1 == arrive else []
 
-    params = {"duration": (arrive + need + 5) / tps, "ticks_per_second": tps, "num_pools": 2, "cpus_per_pool": 2.5 if frac_cpu else 16, "ram_gb_per_pool": 64,
+    params = {"duration": (arrive + need + 5) / tps, "ticks_per_second": tps, "num_pools": 2, "cpus_per_pool": 2.5 if frac_cpu else (4 if mixed else 16), "ram_gb_per_pool": 64,
               "multi_operator_containers": multi, "allow_memory_overcommit": algo == "overbook"}
     stats, rec = layer_m.run_recorded(params, algo, One())
     ctx.coverage["evaluations"] += 1
